@@ -72,6 +72,21 @@ func vOtherPaths() []*vPath {
 	return []*vPath{
 		{coq: "PSprint", label: "fmt.Sprint", render: func(v any) string { return fmt.Sprint(v) }, cause: vCauseFmtV},
 		{coq: "PSprintln", label: "fmt.Sprintln", render: func(v any) string { return fmt.Sprintln(v) }, cause: vCauseFmtV},
+		// Errorf formats with Sprintf's printer: compared with the PFmt model
+		{coq: "(pf \"v\" 0 0 0)", label: "fmt.Errorf(%v).Error()", render: func(v any) string { return fmt.Errorf("%v", v).Error() }, cause: vCauseFmtV},
+		{coq: "(pf \"v\" 1 0 0)", label: "fmt.Errorf(%+v).Error()", render: func(v any) string { return fmt.Errorf("%+v", v).Error() }, cause: vCauseFmtV},
+		{coq: "(pf \"q\" 0 0 0)", label: "fmt.Sprintf(\"%q\") as Errorf(%w) of Errorf(%q): errors wrapped twice", render: func(v any) string {
+			inner := fmt.Errorf("%q", v)
+			return strings.TrimPrefix(fmt.Errorf("outer: %w", inner).Error(), "outer: ")
+		}, cause: func(sh *vShape) string {
+			if sh.hasUnexported() {
+				return "fmt-unexported-field"
+			}
+			if sh.hasDeepPtr() {
+				return "fmt-inner-pointer-verb"
+			}
+			return "unexplained"
+		}},
 		{coq: "PErrorfW", label: "fmt.Errorf(%w)", render: func(v any) string { return fmt.Errorf("%w", v).Error() },
 			cause: func(*vShape) string { return "fmt-verb-not-stringer" }},
 		{coq: "PJson", label: "json.Marshal", render: func(v any) string { return vErrStr(json.Marshal(v)) }, cause: vCauseJSON},
